@@ -1,6 +1,7 @@
 package main
 
 import (
+	"strings"
 	"fmt"
 	"os"
 	"path/filepath"
@@ -30,6 +31,14 @@ func cmdCheck(prop, tier string, keep bool) int {
 	for _, r := range results {
 		seen[r.Name] = true
 		switch r.Status {
+		case "finding-confirmed":
+			base := strings.Replace(r.Name, "/finding:", "/ensures:", 1)
+			if kf, ok := p.findings[base]; ok {
+				fmt.Printf("KNOWN-FINDING: property=%s %s [obligation %s fails inside region: %s]\n", prop, kf.What, base, kf.Region)
+				known = append(known, base)
+			}
+		case "finding-not-reproduced":
+			fmt.Printf("NOTE: known finding for %s no longer reproduces inside its region\n", r.Name)
 		case "discharged":
 		case "vacuous":
 			fmt.Printf("VACUOUS %s: precondition/invariant unsatisfiable\n", r.Name)
